@@ -23,7 +23,7 @@ INT_TYPES = {"char": (8, True), "signed char": (8, True), "unsigned char": (8, F
              "unsigned long": (64, False), "long long": (64, True), "unsigned long long": (64, False)}
 ARITH = ("+", "-", "*", "/", "%", "<<", ">>", "&", "|", "^", "==", "!=", "<", "<=", ">", ">=", "<=>")
 ASSIGN = ("=", "+=", "-=", "*=", "/=", "%=", "<<=", ">>=", "&=", "|=", "^=")
-MUTABLE = ("int", "bool", "it")       # kinds of values a local variable may be (re-)assigned
+MUTABLE = ("int", "bool", "it", "aptr")       # kinds of values a local variable may be (re-)assigned
 FUEL = 200000                         # statements per interpreted entry point
 DEPTH = 64
 
@@ -47,6 +47,49 @@ def bare_ty(ty):
     elif t.endswith(" const"):
         t = t[:-6].strip()
     return t
+
+
+def array_dims(ty):
+    """(element type, [d0, d1, ...]) of an array type 'T[d0][d1]'; None for everything else (also for a pointer or a
+    reference to an array)"""
+    m = re.match(r"^(.*?)((?:\[\d+\])+)$", bare_ty(ty))
+    if not m or "(" in m.group(1):
+        return None
+    return m.group(1).strip(), [int(x) for x in re.findall(r"\[(\d+)\]", m.group(2))]
+
+
+def is_const_obj(ty):
+    """the declared object itself is const (not merely what it points to)"""
+    t = re.sub(r"(\[\d*\])+$", "", (ty or "").strip()).strip()
+    if "*" in t or "&" in t:
+        return t.endswith("const")
+    return t.startswith("const ") or t.endswith(" const")
+
+
+def const_tree(n):
+    """n is an integer constant or a (nested) initialiser list of integer constants"""
+    if n is None:
+        return False
+    if n["k"] == "InitListExpr":
+        return bool(kids(n)) and all(const_tree(c) for c in kids(n))
+    return const_int(n) is not None
+
+
+def decay(v):
+    """an array used as a value is a pointer to its first element"""
+    return ("aptr", v[1], 0) if v is not None and v[0] == "arr" else v
+
+
+def copy_val(v):
+    """copy of a value: arrays and the non-reference fields of an aggregate are copied, reference fields and pointers
+    keep designating the same object"""
+    if v is None:
+        return None
+    if v[0] == "arr":
+        return ("arr", [[copy_val(c[0])] for c in v[1]])
+    if v[0] == "agg":
+        return ("agg", v[1], {m: (c if m in v[3] else [copy_val(c[0])]) for m, c in v[2].items()}, v[3])
+    return v
 
 
 def unwrap(n):
@@ -77,7 +120,8 @@ class NetInterp:
     """concrete interpreter for network functions.  A variable is a cell [value]; references and by-reference lambda
     captures share the cell.  Values: ('it', off) iterator at slot off | ('slot', i) reference to element i |
     ('int', k) | ('bool', b) | ('cswap',) compare-exchange functor | ('cmp',) the caller's comparator |
-    ('lambda', {did: cell})"""
+    ('lambda', {did: cell}) | ('arr', [cell, ...]) builtin array | ('aptr', [cell, ...], i) pointer to element i of a
+    builtin array | ('agg', record, {field id: cell}, {ids of the reference fields}) aggregate without constructors"""
 
     def __init__(self, tu, ns):
         self.tu = tu
@@ -107,6 +151,20 @@ class NetInterp:
 
     def arith(self, op, a, b, ty, fn, n):
         """a OP b for two values, None when the combination is not understood"""
+        a, b = decay(a), decay(b)
+        if a[0] == "aptr" or b[0] == "aptr":
+            if op == "<=>":
+                return None
+            if a[0] == "aptr" and b[0] == "aptr":
+                if a[1] is not b[1]:
+                    return None                  # pointers into different arrays
+                a, b = ("it", a[2]), ("it", b[2])
+            elif a[0] == "aptr" and num(b) is not None and op in ("+", "-"):
+                return ("aptr", a[1], a[2] + (num(b) if op == "+" else -num(b)))
+            elif num(a) is not None and b[0] == "aptr" and op == "+":
+                return ("aptr", b[1], b[2] + num(a))
+            else:
+                return None
         if op == "<=>":
             # the ordering object is represented by its sign (it is only ever compared with the literal 0)
             if (a[0] == "it" and b[0] == "it") or (num(a) is not None and num(b) is not None):
@@ -163,11 +221,29 @@ class NetInterp:
             return self.value(kids(n)[0], env, fn)
         if const_int(n) is not None:
             return ("bool", bool(const_int(n))) if bare_ty(n.get("ty")) == "bool" else ("int", const_int(n))
+        if k == "MemberExpr":
+            return self.load(self.lcell(n, env, fn), n, fn)
         if k in CASTS and kids(n):
             v = self.value(kids(n)[0], env, fn)
             if v[0] in ("int", "bool") and bare_ty(n.get("ty")) != "void":
                 return self.wrap(v[1], n.get("ty"), fn, n)
             return v
+        if k == "InitListExpr" and array_dims(n.get("ty")):
+            dims = array_dims(n["ty"])[1]
+            if len(kids(n)) != dims[0]:
+                raise dtable.Undecidable("%s: array of %d elements with %d initialisers (the rest is not in the IR)"
+                                         % (fn.nloc(n), dims[0], len(kids(n))))
+            cells = []
+            for a in kids(n):
+                v = self.value(a, env, fn)
+                if v[0] == "slot":
+                    raise dtable.Undecidable("%s: array element is a copy of an element (%s) in a network function" % (fn.nloc(n), dtable.describe(a)))
+                if (v[0] == "arr") != (len(dims) > 1):
+                    self.not_understood(n, fn)
+                cells.append([v])
+            return ("arr", cells)
+        if k == "InitListExpr" and self.record_of(n.get("ty")) is not None:
+            return self.aggregate(n, self.record_of(n.get("ty")), env, fn)
         if k in CONSTRUCTS or k == "InitListExpr":
             args = kids(n)
             if is_cs_ty(n.get("ty")):
@@ -180,8 +256,13 @@ class NetInterp:
                                          "the comparator argument" % fn.nloc(n))
             if len(args) == 1 and args[0] is not None and args[0]["k"] != "DefaultArg":
                 v = self.value(args[0], env, fn)         # copy of an iterator / comparator
-                if v[0] in ("it", "cmp", "int", "bool"):
+                if v[0] in ("it", "cmp", "int", "bool", "aptr"):
                     return v
+                if v[0] == "agg" and k in CONSTRUCTS:
+                    # the implicit copy / move constructor of an aggregate copies member by member
+                    rec = self.record_of(n.get("ty"))
+                    if rec is not None and rec.get("full") == v[1] and not self.user_ctor(rec):
+                        return copy_val(v)
                 if v[0] == "slot":
                     raise dtable.Undecidable("%s: copy of an element (%s) in a network function" % (fn.nloc(n), dtable.describe(args[0])))
             self.not_understood(n, fn)
@@ -192,7 +273,7 @@ class NetInterp:
                 if cell is None:
                     raise dtable.Undecidable("%s: lambda captures something that is not a local of the network function (%s)"
                                              % (fn.nloc(n), c.get("name")))
-                caps[c["id"]] = cell if c.get("byref") else [cell[0]]
+                caps[c["id"]] = cell if c.get("byref") else [copy_val(cell[0])]
             return ("lambda", caps)
         if k == "ConditionalOperator":
             c = num(self.value(kids(n)[0], env, fn))
@@ -209,20 +290,14 @@ class NetInterp:
             if b is None:
                 self.not_understood(n, fn)
             return ("bool", bool(b))
-        ip = match.index_parts(n)
-        if ip and not n.get("member_call"):
-            base, idx = self.value(ip[0], env, fn), num(self.value(ip[1], env, fn))
-            if base[0] == "it" and idx is not None:
-                return ("slot", base[1] + idx)
-            self.not_understood(n, fn)
-        d = match.deref_of(n)
-        if d is not None:
-            v = self.value(d, env, fn)
-            if v[0] == "it":
-                return ("slot", v[1])
-            self.not_understood(n, fn)
+        pl = self.place(n, env, fn)
+        if pl is not None:
+            return pl if pl[0] == "slot" else self.load(self.element(pl, n, fn), n, fn)
         if (k == "UnaryOperator" and n.get("op") == "&") or (is_std(n, ("addressof",)) and len(kids(n)) == 1):
-            v = self.value(kids(n)[0], env, fn)
+            pl = self.place(unwrap(kids(n)[0]), env, fn)
+            if pl is not None and pl[0] == "elem":
+                return ("aptr", pl[1], pl[2])
+            v = pl if pl is not None else self.value(kids(n)[0], env, fn)
             if v[0] == "slot":
                 return ("it", v[1])
             self.not_understood(n, fn)
@@ -262,6 +337,14 @@ class NetInterp:
                 self.not_understood(n, fn)
             if is_std(n, ("move", "forward", "as_const")) and len(args) == 1 and plain:
                 return self.value(args[0], env, fn)
+            if is_std(n, ("begin", "end", "cbegin", "cend", "size", "ssize")) and len(args) == 1 and plain:
+                v = self.value(args[0], env, fn)
+                if v[0] == "arr":
+                    name = n["callee"]["name"]
+                    if name in ("size", "ssize"):
+                        return self.wrap(len(v[1]), n.get("ty"), fn, n)
+                    return ("aptr", v[1], len(v[1]) if name in ("end", "cend") else 0)
+                self.not_understood(n, fn)
             callee, base = None, None
             if n["k"] == "CallExpr" and self.is_helper(n["callee"]):
                 callee = self.tu.by_did[n["callee"]["did"]]
@@ -279,10 +362,104 @@ class NetInterp:
                 raise dtable.Undecidable("%s: call of %s gives no value" % (fn.nloc(n), n["callee"]["qname"]))
         self.not_understood(n, fn)
 
-    def cell_of(self, e, env, fn):
+    # ------------------------------------------------------------------ lvalues: arrays and aggregates
+    def place(self, n, env, fn):
+        """for x[i] and *p: ('slot', k) element of the sequence | ('elem', cells, i) element of a builtin array;
+        None when n has another form"""
+        ip = match.index_parts(n)
+        if ip and not n.get("member_call"):
+            base, idx = decay(self.value(ip[0], env, fn)), num(self.value(ip[1], env, fn))
+        else:
+            d = match.deref_of(n)
+            if d is None:
+                return None
+            base, idx = decay(self.value(d, env, fn)), 0
+        if idx is not None and base[0] == "it":
+            return ("slot", base[1] + idx)
+        if idx is not None and base[0] == "aptr":
+            return ("elem", base[1], base[2] + idx)
+        self.not_understood(n, fn)
+
+    def element(self, pl, n, fn):
+        if not 0 <= pl[2] < len(pl[1]):
+            raise dtable.Undecidable("%s: index %d is outside the array of %d elements: %s"
+                                     % (fn.nloc(n), pl[2], len(pl[1]), dtable.describe(n)))
+        return pl[1][pl[2]]
+
+    def load(self, cell, n, fn):
+        if cell is None:
+            self.not_understood(n, fn)
+        if cell[0] is None:
+            raise dtable.Undecidable("%s: %s is read before it holds a value" % (fn.nloc(n), dtable.describe(n)))
+        return cell[0]
+
+    def lcell(self, e, env, fn):
+        """the cell an lvalue expression designates: a local variable, an element of a builtin array, a field of an
+        aggregate; a fresh cell for an element of the sequence (a slot is a value of the interpreter).  None when e has
+        another form (nothing has been evaluated then)"""
         n = unwrap(e)
-        if n is not None and n["k"] == "DeclRefExpr" and n["ref"]["id"] in env:
-            return env[n["ref"]["id"]]
+        if n is None:
+            return None
+        if n["k"] == "DeclRefExpr":
+            return env.get(n["ref"]["id"])
+        if n["k"] == "MemberExpr":
+            if len(kids(n)) != 1 or n.get("arrow") or n.get("method") or n.get("static"):
+                self.not_understood(n, fn)
+            base = self.value(kids(n)[0], env, fn)
+            if base[0] != "agg" or n.get("mid") not in base[2]:
+                self.not_understood(n, fn)
+            return base[2][n["mid"]]
+        pl = self.place(n, env, fn)
+        if pl is None:
+            return None
+        return [pl] if pl[0] == "slot" else self.element(pl, n, fn)
+
+    def record_of(self, ty):
+        t = bare_ty(ty)
+        rs = [r for r in self.tu.records if r.get("full") == t]
+        return rs[0] if len(rs) == 1 else None
+
+    def user_ctor(self, rec):
+        short = rec["qname"].rsplit("::", 1)[-1]
+        return any(m.get("name") in (short, "~" + short, "operator=") for m in rec.get("methods", []))
+
+    def bind_ref(self, a, env, fn, what):
+        """cell a reference is bound to: the object itself for an lvalue the interpreter can name, a new cell for a
+        temporary"""
+        cell = self.lcell(a, env, fn)
+        if cell is not None:
+            self.load(cell, a, fn)
+            return cell
+        v = self.value(a, env, fn)
+        if v[0] in MUTABLE and unwrap(a).get("lv"):
+            raise dtable.Undecidable("%s: %s is bound to something that is not a local variable" % (fn.nloc(a), what))
+        return [v]
+
+    def aggregate(self, n, rec, env, fn):
+        """aggregate initialisation T{e0, e1, ...} of a class without bases and constructors: one initialiser per field"""
+        fields, args = rec.get("fields", []), kids(n)
+        if rec.get("bases") or self.user_ctor(rec) or len(args) != len(fields) or not fields:
+            raise dtable.Undecidable("%s: initialisation of %s is not one initialiser per field of an aggregate"
+                                     % (fn.nloc(n), rec.get("full")))
+        cells, refs = {}, set()
+        for f, a in zip(fields, args):
+            if a is None or a["k"] == "DefaultArg":
+                self.not_understood(n, fn)
+            if is_ref_ty(f.get("ty")):
+                refs.add(f["mid"])
+                cells[f["mid"]] = self.bind_ref(a, env, fn, "reference field %s" % f.get("name"))
+                continue
+            v = self.value(a, env, fn)
+            if v[0] == "slot":
+                raise dtable.Undecidable("%s: field %s is a copy of an element (%s), not the element"
+                                         % (fn.nloc(n), f.get("name"), dtable.describe(a)))
+            cells[f["mid"]] = [v if array_dims(f.get("ty")) else decay(v)]
+        return ("agg", rec["full"], cells, frozenset(refs))
+
+    def cell_of(self, e, env, fn):
+        cell = self.lcell(e, env, fn)
+        if cell is not None:
+            return cell
         raise dtable.Undecidable("%s: write to something that is not a local variable of the network function: %s"
                                  % (fn.nloc(e), dtable.describe(e)))
 
@@ -308,7 +485,7 @@ class NetInterp:
         b = match.binop(n, ASSIGN)
         if b:
             cell = self.cell_of(b[1], env, fn)
-            rhs = self.value(b[2], env, fn)
+            rhs = decay(self.value(b[2], env, fn))
             if cell[0] is not None and cell[0][0] not in MUTABLE:
                 raise dtable.Undecidable("%s: assignment through %s (an element or a functor is overwritten)"
                                          % (fn.nloc(n), dtable.describe(b[1])))
@@ -325,10 +502,13 @@ class NetInterp:
         u = match.unop(n, ("++", "--"))
         if u:
             cell = self.cell_of(u[1], env, fn)
-            if cell[0] is None or cell[0][0] not in ("int", "it"):
+            if cell[0] is None or cell[0][0] not in ("int", "it", "aptr"):
                 self.not_understood(n, fn)
             d = 1 if u[0] == "++" else -1
-            cell[0] = ("it", cell[0][1] + d) if cell[0][0] == "it" else self.wrap(cell[0][1] + d, u[1].get("ty"), fn, n)
+            if cell[0][0] == "aptr":
+                cell[0] = ("aptr", cell[0][1], cell[0][2] + d)
+            else:
+                cell[0] = ("it", cell[0][1] + d) if cell[0][0] == "it" else self.wrap(cell[0][1] + d, u[1].get("ty"), fn, n)
             return None
         if "callee" in n and k not in CONSTRUCTS:
             c = n["callee"]
@@ -360,9 +540,9 @@ class NetInterp:
             if is_std(n, ("advance",)) and len(args) == 2:
                 cell = self.cell_of(args[0], env, fn)
                 step = num(self.value(args[1], env, fn))
-                if cell[0] is None or cell[0][0] != "it" or step is None:
+                if cell[0] is None or cell[0][0] not in ("it", "aptr") or step is None:
                     self.not_understood(n, fn)
-                cell[0] = ("it", cell[0][1] + step)
+                cell[0] = ("it", cell[0][1] + step) if cell[0][0] == "it" else ("aptr", cell[0][1], cell[0][2] + step)
                 return None
             if k == "CallExpr" or n.get("member_call"):
                 raise dtable.Undecidable(
@@ -466,37 +646,60 @@ class NetInterp:
                     r = self.exec_expr(inc, env, fn, out)
                     if r:
                         return r
+        if k == "CXXForRangeStmt":
+            var = kids(s)[1] if len(kids(s)) == 3 else None
+            if var is None or var["k"] != "VarDecl" or kids(s)[0] is None:
+                raise dtable.Undecidable("%s: range-based loop not understood in a network function" % fn.nloc(s))
+            rng = self.value(kids(s)[0], env, fn)
+            if rng[0] != "arr":
+                raise dtable.Undecidable("%s: range-based loop over something that is not a builtin array the interpreter "
+                                         "knows: %s" % (fn.nloc(s), dtable.describe(kids(s)[0])))
+            byref = is_ref_ty(var.get("ty")) or var.get("isref")
+            for cell in list(rng[1]):
+                self.steps += 1
+                if self.steps > FUEL:
+                    raise dtable.Undecidable("%s: loop does not finish within %d statements" % (fn.nloc(s), FUEL))
+                # the loop variable is the element (reference) or a copy of it (an inner array decays to a pointer)
+                env[var["did"]] = cell if byref else [decay(self.load(cell, kids(s)[0], fn))]
+                self.load(env[var["did"]], kids(s)[0], fn)
+                r = self.run_stmt(kids(s)[2], env, fn, out)
+                if r == "break":
+                    return None
+                if r in ("return", "noreturn"):
+                    return r
+            return None
         if k == "DeclStmt":
             for v in kids(s):
                 if v is None or v["k"] != "VarDecl":
                     raise dtable.Undecidable("%s: declaration not understood in a network function" % fn.nloc(s))
-                if v.get("static") and const_int(kids(v)[0] if kids(v) else None) is None:
-                    raise dtable.Undecidable("%s: static local in a network function" % fn.nloc(v))
                 ty = v.get("ty", "")
                 init = kids(v)[0] if kids(v) else None
+                # a static local keeps its value between calls: it is re-evaluated per call only when it is a constant
+                if v.get("static") and not (is_const_obj(ty) and const_tree(init)):
+                    raise dtable.Undecidable("%s: static local in a network function that is not a table of constants" % fn.nloc(v))
+                isref = is_ref_ty(ty) or v.get("isref")
                 if init is None:
-                    if is_ref_ty(ty) or is_cs_ty(ty):
+                    if isref or is_cs_ty(ty):
                         raise dtable.Undecidable("%s: uninitialised local in a network function" % fn.nloc(v))
-                    env[v["did"]] = [None]
+                    env[v["did"]] = [self.blank(array_dims(ty)[1]) if array_dims(ty) else None]
+                    continue
+                if isref:
+                    env[v["did"]] = self.bind_ref(init, env, fn, "reference %s" % v.get("name"))     # alias
                     continue
                 val = self.value(init, env, fn)
-                if is_ref_ty(ty) or v.get("isref"):
-                    i0 = unwrap(init)
-                    if val[0] in MUTABLE and i0.get("lv"):
-                        if i0["k"] != "DeclRefExpr" or i0["ref"]["id"] not in env:
-                            raise dtable.Undecidable("%s: reference %s is bound to something that is not a local variable"
-                                                     % (fn.nloc(v), v.get("name")))
-                        env[v["did"]] = env[i0["ref"]["id"]]      # alias of another local
-                        continue
-                elif val[0] == "slot":
+                if val[0] == "slot":
                     raise dtable.Undecidable("%s: local %s is a copy of an element, not the element" % (fn.nloc(v), v.get("name")))
-                env[v["did"]] = [val]
+                env[v["did"]] = [val if array_dims(ty) else decay(val)]
             return None
         if "ty" in s or "callee" in s:
             return self.exec_expr(s, env, fn, out)
         raise dtable.Undecidable(
             "%s: statement is neither a compare-exchange nor a call of another network (%s)"
             % (fn.nloc(s), dtable.describe(s)))
+
+    def blank(self, dims):
+        """array without initialiser: every element is there and holds no value yet"""
+        return ("arr", [[self.blank(dims[1:]) if len(dims) > 1 else None] for _ in range(dims[0])])
 
     # ------------------------------------------------------------------ calls
     def invoke(self, callee, argnodes, env, fn, out, site, base=None):
@@ -509,19 +712,14 @@ class NetInterp:
         for p, a in zip(callee.params, argnodes):
             if a is None or a["k"] == "DefaultArg":
                 raise dtable.Undecidable("%s: default argument used for %s" % (site, p["name"]))
+            if is_ref_ty(p.get("ty")):
+                # a reference to an object the interpreter can name shares its cell; other lvalues are not modelled
+                new[p["did"]] = self.bind_ref(a, env, fn, "reference parameter %s of %s" % (p["name"], callee.qname))
+                continue
             v = self.value(a, env, fn)
-            ref = is_ref_ty(p.get("ty"))
-            if v[0] == "slot" and not ref:
+            if v[0] == "slot":
                 raise dtable.Undecidable("%s: an element is passed by value to %s (%s works on a copy)" % (site, callee.qname, p["name"]))
-            a0 = unwrap(a)
-            if ref and v[0] in MUTABLE and a0.get("lv"):
-                # a reference to a variable shares its cell; a reference to any other lvalue is not modelled
-                if a0["k"] != "DeclRefExpr" or a0["ref"]["id"] not in env:
-                    raise dtable.Undecidable("%s: reference parameter %s of %s is bound to something that is not a local variable"
-                                             % (site, p["name"], callee.qname))
-                new[p["did"]] = env[a0["ref"]["id"]]
-            else:
-                new[p["did"]] = [v]
+            new[p["did"]] = [decay(v)]
         return self.run_body(callee, new, out, site)
 
     def run_body(self, callee, env, out, site):
